@@ -756,7 +756,10 @@ func runC06(c *Ctx) {
 			"FixedString(18446744073709551615)", "FixedString(+8)", "FixedString( 8 )", "Array(FixedString(-5))", "Nullable(FixedString(0))", "LowCardinality(FixedString(-1))",
 			"Array(FixedString(0))", "Decimal(0)", "Decimal(-3, 2)", "Decimal(77, 1)", "Decimal(4294967305, 1)", "DateTime64(99)", "DateTime64(-1)", "DateTime64(256)",
 			"Enum8()", "Enum8('a' = 99999999999999999999)", "Enum16('a' = -70000)", "Enum8('a' = 300)", "Array()", "Nullable()", "LowCardinality()", "Map(String,String)",
-			"IntervalFortnight", "Interval", "Nothing", "Nullable(Nothing)", "Array(Nothing)", "Tuple()", "Nested(a Int8)", "AggregateFunction(sum, Int8)", "SimpleAggregateFunction(sum, Int64)"}
+			"IntervalFortnight", "Interval", "Nothing", "Nullable(Nothing)", "Array(Nothing)", "Tuple()", "Nested(a Int8)", "AggregateFunction(sum, Int8)", "SimpleAggregateFunction(sum, Int64)",
+			// parameterised types spelled without their parameters, plain and wrapped
+			"DateTime64", "Enum8", "Enum16", "FixedString", "Array", "Nullable", "LowCardinality", "Map", "Tuple", "Decimal32()", "Decimal64()", "DateTime()", "DateTime64()",
+			"Array(DateTime64)", "Nullable(DateTime64)", "Array(Enum8)", "Nullable(Enum16)", "Array(FixedString)", "LowCardinality(FixedString)", "Map(String, DateTime64)", "Tuple(DateTime64)", "Tuple(Enum8, Int8)"}
 		n2b := len(hostile)
 		if c.Thorough {
 			n2b *= 6
